@@ -1210,11 +1210,11 @@ fn valid_encodings() -> Vec<u8> {
     (0..=255u8).filter(|b| *b != 0xff && FORMATS.contains(&(b & 0x0f)) && ((b >> 4) & 7) <= 5).collect()
 }
 
-fn gen_aug(rng: &mut Rng) -> Vec<u8> {
+fn gen_aug(rng: &mut Rng, force: Option<u64>) -> Vec<u8> {
     // every subset of zLPRS that gimli accepts: L, P, R need a leading z; S may stand alone
     let mut v = Vec::new();
-    let subset = rng.below(16);
-    let z = rng.chance(4, 5) || subset & 7 != 0;
+    let subset = force.unwrap_or_else(|| rng.below(16));
+    let z = rng.chance(4, 5) || subset & 7 != 0 || force.is_some();
     if !z {
         if subset & 8 != 0 {
             v.push(b'S');
@@ -1265,9 +1265,12 @@ struct GenSection {
 }
 
 /// a structured-valid section
-fn gen_section(rng: &mut Rng, nop_only: bool) -> Option<GenSection> {
+fn gen_section(rng: &mut Rng, nop_only: bool, force: Option<(bool, u64)>) -> Option<GenSection> {
     let encs = valid_encodings();
-    let eh = rng.chance(2, 3);
+    let eh = match force {
+        Some((k, _)) => k,
+        None => rng.chance(2, 3),
+    };
     let big = rng.chance(1, 3);
     let asz = *rng.pick(&[8u8, 8, 8, 4, 4, 2, 1]);
     let m = mask(asz);
@@ -1288,7 +1291,7 @@ fn gen_section(rng: &mut Rng, nop_only: bool) -> Option<GenSection> {
     let mut cies = Vec::new();
     for _ in 0..ncie {
         let version = if eh { *rng.pick(&[1u8, 1, 3, 4]) } else { *rng.pick(&[1u8, 3, 4, 4]) };
-        let aug = gen_aug(rng);
+        let aug = gen_aug(rng, force.map(|f| f.1));
         let v4_asz = *rng.pick(&[1u8, 2, 4, 8, 8]);
         let casz = if !eh && version == 4 { v4_asz } else { asz };
         // FDE address encoding: fixed-size formats for every application; LEB formats only when
@@ -1487,6 +1490,84 @@ fn gen_hdr(rng: &mut Rng, g: &GenSection, size: u8) -> Option<(Vec<u8>, Layout, 
     None
 }
 
+/// `.eh_frame` / `.eh_frame_hdr` of a compiler-built ELF file on this machine, with the FDE list
+/// as `readelf --debug-dump=frames` prints it (an oracle independent of gimli, the Model and this
+/// file's encoder). `None` when the file or readelf is missing or the output is not understood.
+fn real_binary(path: &str) -> Option<(Vec<u8>, u64, Vec<u8>, u64, Vec<OFde>)> {
+    use std::process::Command;
+    let file = std::fs::read(path).ok()?;
+    let out = Command::new("readelf").args(["-SW", path]).output().ok()?;
+    let txt = String::from_utf8_lossy(&out.stdout).to_string();
+    let mut eh: Option<(u64, usize, usize)> = None;
+    let mut hdr: Option<(u64, usize, usize)> = None;
+    for l in txt.lines() {
+        let Some(i) = l.find(']') else { continue };
+        let t: Vec<&str> = l[i + 1..].split_whitespace().collect();
+        if t.len() < 5 {
+            continue;
+        }
+        let parse = || -> Option<(u64, usize, usize)> { Some((u64::from_str_radix(t[2], 16).ok()?, usize::from_str_radix(t[3], 16).ok()?, usize::from_str_radix(t[4], 16).ok()?)) };
+        if t[0] == ".eh_frame" {
+            eh = parse();
+        } else if t[0] == ".eh_frame_hdr" {
+            hdr = parse();
+        }
+    }
+    let (eh_addr, eh_off, eh_size) = eh?;
+    let (hdr_addr, hdr_off, hdr_size) = hdr?;
+    let sec = file.get(eh_off..eh_off + eh_size)?.to_vec();
+    let hb = file.get(hdr_off..hdr_off + hdr_size)?.to_vec();
+    let out = Command::new("readelf").args(["--debug-dump=frames", path]).output().ok()?;
+    let txt = String::from_utf8_lossy(&out.stdout).to_string();
+    let mut fdes = Vec::new();
+    for l in txt.lines() {
+        // 00000018 0000000000000014 0000001c FDE cie=00000000 pc=00000000000023d0..00000000000023f2
+        let t: Vec<&str> = l.split_whitespace().collect();
+        if t.len() >= 6 && t[3] == "FDE" && t[5].starts_with("pc=") {
+            let off = u64::from_str_radix(t[0], 16).ok()?;
+            let (a, b) = t[5][3..].split_once("..")?;
+            let a = u64::from_str_radix(a, 16).ok()?;
+            let b = u64::from_str_radix(b, 16).ok()?;
+            fdes.push(OFde { off, initial: a, len: b.wrapping_sub(a), asz: 8 });
+        }
+    }
+    if fdes.is_empty() {
+        return None;
+    }
+    Some((sec, eh_addr, hb, hdr_addr, fdes))
+}
+
+fn real_binary_cases(path: &str, nprobes: usize, rng: &mut Rng, emit: &mut dyn FnMut(String)) {
+    let Some((sec, eh_addr, hb, hdr_addr, fdes)) = real_binary(path) else { return };
+    if cfg!(target_endian = "big") || sec.len() > 64 * 1024 {
+        return;
+    }
+    let m = mode_tok();
+    let bt = format!("{hdr_addr},-,{hdr_addr};{eh_addr},-,-");
+    let sh = hex(&sec);
+    let hh = hex(&hb);
+    emit(format!("cfi-entries {m} eh le 8 {bt} - {sh}"));
+    // the linker's table is a proper index when the FDEs are non-empty and pairwise disjoint
+    let mut sorted = fdes.clone();
+    sorted.sort_by_key(|f| f.initial);
+    let proper = sorted.iter().all(|f| f.len > 0) && sorted.windows(2).all(|w| w[0].initial + w[0].len <= w[1].initial);
+    let ft = ofdes_token(proper, &fdes);
+    let mut ps: Vec<u64> = vec![0, u64::MAX, eh_addr];
+    for _ in 0..nprobes {
+        let f = fdes[rng.below(fdes.len() as u64) as usize];
+        let e = f.initial.wrapping_add(f.len);
+        ps.push(*rng.pick(&[f.initial.wrapping_sub(1), f.initial, f.initial + f.len / 2, e.wrapping_sub(1), e]));
+    }
+    ps.sort();
+    ps.dedup();
+    for a in &ps {
+        emit(format!("cfi-lookup {m} eh le 8 {bt} {a} {ft} {sh} {hh}"));
+    }
+    for a in ps.iter().take(6) {
+        emit(format!("hdr-parse {m} le 8 {bt} {a} - {hh}"));
+    }
+}
+
 fn mode_tok() -> &'static str {
     "@MODE@"
 }
@@ -1544,9 +1625,12 @@ pub fn gen(ctx: &Ctx, emit: &mut dyn FnMut(String)) {
     }
     // ---- structured-valid sections: entries, probes, three lookup paths, hdr tables of sizes 2/4/8
     let nsec = ctx.n(900, 30_000);
-    for i in 0..nsec {
+    for i in 0..nsec + 96 {
         let nop_only = i % 3 != 0;
-        let Some(g) = gen_section(&mut rng, nop_only) else { continue };
+        // the first 96 sections enumerate every augmentation subset of zLPRS (z alone = subset 0) for
+        // both section kinds, three times; the rest draw everything at random
+        let force = if i < 96 { Some((i % 2 == 0, (i as u64 / 2) % 16)) } else { None };
+        let Some(g) = gen_section(&mut rng, nop_only, force) else { continue };
         let k = if g.spec.eh { "eh" } else { "df" };
         let e = if g.spec.big { "be" } else { "le" };
         let asz = g.spec.asz;
@@ -1725,6 +1809,13 @@ pub fn gen(ctx: &Ctx, emit: &mut dyn FnMut(String)) {
             w.u64(cnt);
             w.bytes(&rng.bytes(48));
             emit(format!("hdr-parse {m} le 8 4096,8192,4096;-,-,- {} - {}", rng.boundary_u64(), hex(&w.b)));
+        }
+    }
+    // ---- compiler-built binaries of this machine, FDE list from readelf as the oracle
+    real_binary_cases("/usr/bin/true", ctx.n(12, 200), &mut rng, emit);
+    if ctx.tier == Tier::Thorough {
+        for p in ["/usr/bin/cat", "/usr/bin/ls", "/usr/bin/objcopy", "/usr/bin/readelf"] {
+            real_binary_cases(p, 120, &mut rng, emit);
         }
     }
     if ctx.tier == Tier::Thorough {
